@@ -128,6 +128,19 @@ int main (int argc, char** argv)
       char what[240]; snprintf (what, 240, "rectangular modulation width %u, sample size %u: reported within-sample lag statistics = generated (first mismatch lag %u: generated %.12g, reported %.12g; %u lags)", width, n, firstbad, g0, r0, bad);
       expect_true (what, bad == 0); } }, 1);
 #endif
+#ifndef SYMX_SYMBOLIC
+  // the boxcar-smoothed factor is the mean of the last `smooth` source factors, whatever came before: long runs on
+  // one object with factors spanning many decades (a rare huge impulse passing through the window)
+  fn ("boxcar_window_mean_plain", [] {
+    for (unsigned smooth : { 2u, 4u, 8u }) { uint64_t st = 17; auto rnd = [&st] () { st = st * 6364136223846793005ULL + 1442695040888963407ULL; return double ((st >> 33) % 1000001) / 1e6; };
+      stub_mod* m = make_stub (0); const unsigned N = 4000;
+      for (unsigned k=0; k<N+smooth; k++) { double v = 1e-3 * (1 + rnd ()); if (k % 97 == 50) v = 3e12 * (1 + rnd ()); if (k % 389 == 7) v = 1e-9 * (1 + rnd ()); m->d.push_back (v); }
+      boxcar_modulated_mode bm (m, smooth); double worst = 0; unsigned worst_k = 0;
+      for (unsigned k=0; k<N; k++) { double f = bm.modulation (); long double w = 0; for (unsigned j=0; j<smooth; j++) w += m->d[k + j]; w /= smooth;   // the window after setup () consumed smooth-1 factors
+        double err = std::fabs (double ((f - w) / w)); if (err > worst) { worst = err; worst_k = k; } }
+      char what[200]; snprintf (what, 200, "boxcar width %u: every smoothed factor equals the mean of its window to 1e-13 (worst relative error %.3g at call %u)", smooth, worst, worst_k);
+      expect_true (what, worst <= 1e-13); } }, 1);
+#endif
   symx::finish ();
   return 0;
 }
